@@ -34,11 +34,18 @@ theorem create_target (e : Env) (masterStr channel : Bytes) (access : UInt8) (ex
 
 theorem access_never_master (ty : Bytes) : accessOf ty &&& permMaster = 0 := accessOf_no_master ty
 
-/-- Extension needs a parent that authorizes Extend on the channel … -/
+/-- Extension needs a parent that authorizes Extend on the channel …
+
+AMENDED: hypothesis `hs : sep ∉ keyStr` added (the key string presented contains no '/'). Without
+it the statement is false: `ExtendKey` parses `keyStr ++ "/" ++ channel`, so `keyStr = K ++ "/a"`
+(`K` a valid extend key for "#/") with channel "b/" succeeds on the strength of `K` for channel
+"a/b/", while `keyStr` itself is no key at all. `Emitter.Security.extendKey_requires_extend_gen`
+is the unconditional form (`ch.key` = the part of `keyStr` before its first '/'). -/
 theorem extend_requires_extend (e : Env) (keyStr channelName connId : Bytes) (access : UInt8) (expires : Int)
-    (k : Key) (target : Bytes) (h : extendKey e keyStr channelName connId access expires = .ok (k, target)) :
+    (k : Key) (target : Bytes) (hs : sep ∉ keyStr)
+    (h : extendKey e keyStr channelName connId access expires = .ok (k, target)) :
     ∃ parent ch, ch.ctype = chStatic ∧ authorize e ch permExtend = some parent ∧ ch.key = keyStr :=
-  extendKey_requires_extend e keyStr channelName connId access expires k target h
+  extendKey_requires_extend e keyStr channelName connId access expires k target hs h
 
 /-- … and yields permissions ⊆ parent ∩ request without extend, the same contract, signature
 and master id, and the target `channel ++ connection id ++ "/"` (`++ "#/"`). -/
